@@ -229,8 +229,11 @@ def run_machine(rec, machine_cls, max_examples, steps, seed, shrink=False):
                                   settings=st)
     except Violation as v:
         v = holder['last'] or v
-        rec.violations.append({'key': v.key, 'message': v.message,
-                               'case': v.case})
+        if v.key in rec.open_keys:
+            rec.known_hits[v.key] += 1      # an open known finding
+        else:
+            rec.violations.append({'key': v.key, 'message': v.message,
+                                   'case': v.case})
     except HarnessError:
         raise
     except hypothesis.errors.HypothesisException as e:
